@@ -108,6 +108,16 @@ class LocationConfig:
                 raise ValueError(
                     f"Location '{self.prefix}': upstream must use gemini:// scheme"
                 )
+            # (an upstream without a host would let the client's path name the server)
+            from ..utils.url import parse_url
+
+            try:
+                parse_url(self.upstream)
+            except ValueError as e:
+                raise ValueError(
+                    f"Location '{self.prefix}': invalid upstream "
+                    f"{self.upstream!r}: {e}"
+                ) from e
 
     @classmethod
     def from_dict(cls, data: dict[str, Any]) -> "LocationConfig":
